@@ -128,6 +128,7 @@ def run(ctx, res):
                 sig = site(f, "%s(%s)" % (callee, _short(ptr, ln, M, S)))
                 missing = []
                 wraps = []
+                underflow = []
                 for t in sorted(comps):
                     ok = False
                     wrapcand = False
@@ -142,6 +143,24 @@ def run(ctx, res):
                             side = b
                         if side is None:
                             continue
+                        # the size side may be the file size minus constants: that subtraction must not wrap below zero,
+                        # i.e. file size >= the subtracted constant has to be established as well
+                        other = b if side == a else a
+                        base_, off_ = None, 0
+                        mm_ = re.match(r"^\(+%s((?:-#\d+\)?)+)(.*)$" % re.escape(S), other) if S else None
+                        sub_ = sum(int(x) for x in re.findall(r"-#(\d+)", other)) if (S and other.startswith("(") and S in other) else 0
+                        if sub_ > 0:
+                            have_ = 0
+                            for gj, ga, gb, gc in guards:
+                                if gj > i:
+                                    break
+                                if ga == S and re.match(r"^#\d+$", gb) and LT not in gc:
+                                    have_ = max(have_, int(gb[1:]))
+                                if gb == S and GT not in gc:
+                                    have_ = max(have_, sum(int(x) for x in re.findall(r"\+#(\d+)", ga)))
+                            if have_ < sub_:
+                                underflow.append("file size >= %d (only >= %d is established before %s is formed)" % (sub_, have_, _short(other, "", M, S)))
+                                continue
                         if wide and side != t and "+" in side:
                             # a 64-bit file-derived quantity inside a sum: the sum may wrap; need sum >= one of its terms established too
                             wrap_ok = any(gj <= i and ((ga == side and gb in side and gb != side and LT not in gc) or
@@ -163,6 +182,9 @@ def run(ctx, res):
                         ok = any(gi < i and a == S and b == k and LT not in c for gi, a, b, c in guards)
                         if not ok:
                             missing.append("file size >= %s" % m.group(1))
+                if underflow and missing:
+                    res.bad("C19.R1", sig + ":underflow", "%s: the bound its extent is compared with subtracts from the file size without %s: for a shorter file the "
+                            "subtraction wraps around and every value passes" % (callee, "; ".join(sorted(set(underflow)))), f.loc(e.node), p.describe(f))
                 if wraps and missing:
                     res.bad("C19.R1", sig + ":wrap", "%s: the only comparison that relates %s to the file size adds it to other terms first; a 64-bit value read from "
                             "the file can make that sum wrap around and pass the test (no `sum >= term` check accompanies it)" % (callee, ", ".join(sorted(set(wraps)))),
